@@ -3,15 +3,16 @@
 usage: seeds_regress.py [id ...]   (never commits anything in /repo)"""
 import glob, json, os, subprocess, sys
 V = os.path.dirname(os.path.dirname(os.path.abspath(__file__)))
+REPO = os.environ.get("RSP_REPO", REPO)     # (a scratch clone when run in the background; honours VERIF_SEED like the checks)
 ids = sys.argv[1:] or sorted(os.path.basename(os.path.dirname(f)) for f in glob.glob(os.path.join(V, "seeded", "*", "meta.json")))
-assert subprocess.run(["git", "-C", "/repo", "status", "--porcelain", "--untracked-files=no"], capture_output=True, text=True).stdout.strip() == "", "/repo not clean"
+assert subprocess.run(["git", "-C", REPO, "status", "--porcelain", "--untracked-files=no"], capture_output=True, text=True).stdout.strip() == "", "/repo not clean"
 bad = 0
 for i in ids:
     m = json.load(open(os.path.join(V, "seeded", i, "meta.json")))
     patch = os.path.join(V, "seeded", i, "patch.diff")
-    r = subprocess.run(["git", "-C", "/repo", "apply", "--3way", patch], capture_output=True, text=True)
+    r = subprocess.run(["git", "-C", REPO, "apply", "--3way", patch], capture_output=True, text=True)
     if r.returncode:
-        subprocess.run(["git", "-C", "/repo", "checkout", "--", "."]); subprocess.run(["git", "-C", "/repo", "reset", "-q"])
+        subprocess.run(["git", "-C", REPO, "checkout", "--", "."]); subprocess.run(["git", "-C", REPO, "reset", "-q"])
         print(f"{i}: PATCH-DOES-NOT-APPLY")
         bad += 1
         continue
@@ -19,7 +20,7 @@ for i in ids:
     for chk in m["detected_by"][:1]:
         out = subprocess.run([os.path.join(V, "check"), chk, "--tier", "quick"], capture_output=True, text=True, cwd=V).stdout.strip().split("\n")[-1]
         res.append(out[:110])
-    subprocess.run(["git", "-C", "/repo", "reset", "-q"]); subprocess.run(["git", "-C", "/repo", "checkout", "--", "."])
+    subprocess.run(["git", "-C", REPO, "reset", "-q"]); subprocess.run(["git", "-C", REPO, "checkout", "--", "."])
     ok = all(x.startswith("VIOLATION") for x in res)
     bad += (not ok)
     print(f"{i}: {'detected' if ok else 'MISSED'}  {res}", flush=True)
